@@ -255,8 +255,10 @@ def run_files(chk, tagname):
     combos = [(1, 'False', 'True', 'False'), (2, 'True', 'True', 'False'), (3, 'True', 'False', 'True'), (1, 'False', 'False', 'True')]
     if chk.tier != 'quick':
         combos += [(d, w, a, m) for d in (1, 2, 3) for w in ('False', 'True') for a in ('False', 'True') for m in ('False', 'True')]
-    combos = [c + ('LIST',) for c in combos] + [(2, 'False', 'True', 'False', 'EQP'), (1, 'True', 'False', 'False', 'EQP')]
-    for du, weights, acc, mc, ebinalg in combos:
+    combos = [c + ('LIST', 'W_MOM') for c in combos] + [(2, 'False', 'True', 'False', 'EQP', 'W_MOM'), (1, 'True', 'False', 'False', 'EQP', 'W_MOM')]
+    # the weights are those of the column the user names (--weightcol): a second weight column with other values in the same file
+    combos += [(3, 'True', 'True', 'False', 'LIST', 'W_NN'), (1, 'True', 'False', 'True', 'LIST', 'W_NN'), (2, 'False', 'True', 'False', 'LIST', 'W_NN')]
+    for du, weights, acc, mc, ebinalg, wcol in combos:
         n = int(g.integers(300, 1500))
         pi = g.integers(30, 260, n)
         phi = g.uniform(-math.pi, math.pi, n)
@@ -267,12 +269,18 @@ def run_files(chk, tagname):
         with scratch() as d:
             path = os.path.join(d, 'ev.fits')
             evfile.write_event_file(path, numpy.sort(g.uniform(0., 1000., n)), pi=pi, phi=phi, w=w, mc_energy=mce, du_id=du, tstart=0., tstop=1000., irfname=irf)
-            desc = dict(op='xpbin-PCUBE', du=du, weights=weights, acceptcorr=acc, mc=mc, edges=edges, events=n, ebinalg=ebinalg)
+            if wcol != 'W_MOM':
+                with fits.open(path) as h:
+                    evh = h['EVENTS']
+                    cols = evh.columns + fits.ColDefs([fits.Column(name=wcol, format='E', array=g.uniform(0.05, 1., n).astype(numpy.float32))])
+                    h['EVENTS'] = fits.BinTableHDU.from_columns(cols, header=evh.header, name='EVENTS')
+                    h.writeto(path, overwrite=True)
+            desc = dict(op='xpbin-PCUBE', du=du, weights=weights, acceptcorr=acc, mc=mc, edges=edges, events=n, ebinalg=ebinalg, weightcol=wcol)
             ebargs = ['--ebinalg', 'LIST', '--ebinning', str(edges)] if ebinalg == 'LIST' else ['--ebinalg', 'EQP', '--ebins', '3', '--emin', '1.', '--emax', '12.']
             chk.case(desc, nontrivial=True)
             try:
                 o = xpbin(**PARSER.parse_args([path, '--overwrite', 'True', '--algorithm', 'PCUBE', '--irfname', irf, '--weights', weights, '--acceptcorr', acc,
-                                               '--mc', mc] + ebargs).__dict__)[0]
+                                               '--mc', mc, '--weightcol', wcol] + ebargs).__dict__)[0]
             except BaseException as e:
                 chk.fail('impl', 'xpbin PCUBE failed: %s: %s (%s)' % (type(e).__name__, e, desc), dict(oracle='pcube', args=desc, error=str(e)))
                 continue
@@ -284,7 +292,7 @@ def run_files(chk, tagname):
                     edges = [rows[0]['ENERG_LO']] + [r['ENERG_HI'] for r in rows]
             with fits.open(path) as h:
                 ev, mcx = h['EVENTS'].data, h['MONTE_CARLO'].data
-                q, u, wm = (numpy.array(ev[k], dtype=float) for k in ('Q', 'U', 'W_MOM'))
+                q, u, wm = (numpy.array(ev[k], dtype=float) for k in ('Q', 'U', wcol))
                 # the PI-channel centre in single precision (the PI column is float32 and numpy keeps that precision)
                 e = numpy.array(mcx['MC_ENERGY'], dtype=float) if mc == 'True' else \
                     (numpy.array(ev['PI'], dtype=numpy.float32) * numpy.float32(0.04) + numpy.float32(0.02)).astype(float)
